@@ -269,6 +269,7 @@ func decodeSpace(c *mc.Ctx, els []*element, tor [8]ref.Point, lam []*big.Int) {
 		R.Add(b)
 	}
 	S := R.Out
+	defer selfAliased(c, S)
 	c.Rep.Extra["alphabet_P_strings"] = len(S)
 
 	type recv struct {
